@@ -540,4 +540,167 @@ theorem fiberShapeSome_eq_dims (dflt : ν) : ∀ (d : Nat) (dims : List Nat) (l 
         exact ih ns c (hall c hc1) hc2
 
 end Make
+
+/-! ### the lock-step union of `uncompress` -/
+
+section Lockstep
+variable {α π β : Type}
+
+/-- `Fiber(coords=range(k, k+m), initial=1)` -/
+def rangeFibFrom (k m : Nat) : Fib Nat Unit := (List.range' k m).map (fun c => (c, ()))
+
+theorem rangeFib_eq (n : Nat) : rangeFib n = rangeFibFrom 0 n := by
+  simp [rangeFib, rangeFibFrom, List.range_eq_range']
+
+theorem rangeFibFrom_zero (k : Nat) : rangeFibFrom k 0 = [] := rfl
+
+theorem rangeFibFrom_succ (k m : Nat) : rangeFibFrom k (m + 1) = (k, ()) :: rangeFibFrom (k + 1) m := by
+  simp [rangeFibFrom, List.range'_succ]
+
+/-- a shape coordinate below every remaining stored coordinate is a `B` row -/
+theorem orMerge_gt_head {a : Fib Nat π} {k : Nat} {u : β} {rb : Fib Nat β} (h : ∀ e ∈ a, k < e.1) :
+    orMerge a ((k, u) :: rb) = (k, (Mask.B, none, some u)) :: orMerge a rb := by
+  cases a with
+  | nil => simp [orMerge]
+  | cons e ra =>
+    obtain ⟨ca, pa⟩ := e
+    have hk : k < ca := h (ca, pa) (List.mem_cons_self ..)
+    have h1 : ¬ ca = k := by omega
+    have h2 : ¬ ca < k := by omega
+    rw [orMerge]
+    simp [h1, h2]
+
+theorem orMerge_same_head {ra : Fib Nat π} {k : Nat} {t : π} {u : β} {rb : Fib Nat β} :
+    orMerge ((k, t) :: ra) ((k, u) :: rb) = (k, (Mask.AB, some t, some u)) :: orMerge ra rb := by
+  rw [orMerge]; simp
+
+theorem mapMOpt_eq_some_self {g : α → Option α} : ∀ (l : List α), (∀ x ∈ l, g x = some x) → mapMOpt g l = some l := by
+  intro l
+  induction l with
+  | nil => intro _; rfl
+  | cons x xs ih =>
+    intro h
+    simp only [mapMOpt, h x (List.mem_cons_self ..), ih (fun z hz => h z (List.mem_cons_of_mem _ hz))]
+
+theorem mapMOpt_none_of_mem {g : α → Option β} : ∀ (l : List α), (∃ x ∈ l, g x = none) → mapMOpt g l = none := by
+  intro l
+  induction l with
+  | nil => rintro ⟨x, hx, _⟩; cases hx
+  | cons x xs ih =>
+    rintro ⟨y, hy, hg⟩
+    rcases List.mem_cons.1 hy with rfl | hy
+    · simp only [mapMOpt, hg]
+    · have := ih ⟨y, hy, hg⟩
+      simp only [mapMOpt, this]
+      cases g x <;> rfl
+
+/-- `uncompress`'s loop over `self | shape_fiber` when `self` is an enumerate-and-keep
+    list over exactly the shape's coordinates: one output per input position -/
+theorem uncRows_lockstep (g : α → Option π) (onAB : π → Option β) (onB : Option β) :
+    ∀ (l : List α) (k : Nat),
+      uncRows onAB onB (orMerge (items g k l) (rangeFibFrom k l.length)) =
+        mapMOpt (fun x => match g x with
+                          | some t => onAB t
+                          | none => onB) l := by
+  intro l
+  induction l with
+  | nil =>
+    intro k
+    simp [items_nil, rangeFibFrom_zero, orMerge, uncRows, mapMOpt]
+  | cons x xs ih =>
+    intro k
+    rw [List.length_cons, rangeFibFrom_succ]
+    cases hg : g x with
+    | some t =>
+      rw [items_cons_some hg, orMerge_same_head]
+      simp only [uncRows, mapMOpt, hg, ih (k + 1)]
+    | none =>
+      rw [items_cons_none hg, orMerge_gt_head (fun e he => items_key_ge g xs (k + 1) e he)]
+      simp only [uncRows, mapMOpt, hg, ih (k + 1)]
+
+end Lockstep
+
+section Unc
+variable {ν : Type} [DecidableEq ν]
+
+theorem present_of_noEmpty {κ : Type} (dflt : ν) (d : Nat) (f : Tree κ ν (d + 1))
+    (h : noEmptyB dflt (d + 1) f = true) : present dflt d f = f := by
+  have h' := List.all_eq_true.1 h
+  apply List.filter_eq_self.2
+  intro e he
+  have := h' e he
+  rw [Bool.and_eq_true] at this
+  exact this.1
+
+theorem uncompress_zero (dflt : ν) (n : Nat) (ns : List Nat) (f : Tree Nat ν 1) :
+    uncompress dflt 0 (n :: ns) f =
+      uncRows (fun (v : ν) => some v) (fillEmpty (if chainOK 0 f then some dflt else none) 0 ns)
+        (orMerge (present dflt 0 f) (rangeFib n)) := rfl
+
+theorem uncompress_succ (dflt : ν) (d n : Nat) (ns : List Nat) (f : Tree Nat ν (d + 2)) :
+    uncompress dflt (d + 1) (n :: ns) f =
+      uncRows (fun (t : Tree Nat ν (d + 1)) => uncompress dflt d ns t)
+        (fillEmpty (if chainOK (d + 1) f then some dflt else none) (d + 1) ns)
+        (orMerge (present dflt (d + 1) f) (rangeFib n)) := rfl
+
+theorem allDefault_zero {dflt v : ν} : allDefault dflt 0 v = true ↔ v = dflt := by
+  show decide (v = dflt) = true ↔ v = dflt
+  exact decide_eq_true_iff
+
+theorem fillEmpty_zero (leaf : Option ν) (ns : List Nat) : fillEmpty leaf 0 ns = leaf := rfl
+
+theorem fillEmpty_succ_cons (leaf : Option ν) (d n : Nat) (ns : List Nat) :
+    fillEmpty leaf (d + 1) (n :: ns) =
+      if n = 0 then some ([] : List (Nest ν d))
+      else (fillEmpty leaf d ns).map (fun x => (List.replicate n x : List (Nest ν d))) := rfl
+
+theorem fillEmpty_none_of_pos : ∀ (d : Nat) (ns : List Nat), (∀ n ∈ ns, 0 < n) →
+    fillEmpty (none : Option ν) d ns = none := by
+  intro d
+  induction d with
+  | zero => intro ns _; rfl
+  | succ d ih =>
+    intro ns hpos
+    cases ns with
+    | nil => rfl
+    | cons n ns =>
+      have hn : n ≠ 0 := Nat.pos_iff_ne_zero.1 (hpos n (List.mem_cons_self ..))
+      rw [fillEmpty_succ_cons, if_neg hn, ih ns (fun m hm => hpos m (List.mem_cons_of_mem _ hm))]
+      rfl
+
+/-- filling with the default reproduces an all-default rectangular nest -/
+theorem fillEmpty_of_rect (dflt : ν) : ∀ (d : Nat) (ns : List Nat) (x : Nest ν d),
+    rectB d ns x = true → (∀ n ∈ ns, 0 < n) → allDefault dflt d x = true →
+    fillEmpty (some dflt) d ns = some x := by
+  intro d
+  induction d with
+  | zero =>
+    intro ns x _ _ hd
+    have := allDefault_zero.1 hd
+    rw [fillEmpty_zero]
+    exact congrArg some this.symm
+  | succ d ih =>
+    intro ns x hr hpos hd
+    cases ns with
+    | nil => rw [rectB_succ_nil] at hr; cases hr
+    | cons n ns =>
+      obtain ⟨hlen, hall⟩ := rect_parts hr
+      have hd' := List.all_eq_true.1 hd
+      have hn : 0 < n := hpos n (List.mem_cons_self ..)
+      have hne : asNestList x ≠ [] := ne_nil_of_length_pos (by rw [hlen]; exact hn)
+      obtain ⟨c0, hc0⟩ := List.exists_mem_of_ne_nil _ hne
+      have hpos' : ∀ m ∈ ns, 0 < m := fun m hm => hpos m (List.mem_cons_of_mem _ hm)
+      have hfill : ∀ c ∈ asNestList x, fillEmpty (some dflt) d ns = some c :=
+        fun c hc => ih ns c (hall c hc) hpos' (hd' c hc)
+      rw [fillEmpty_succ_cons, if_neg (Nat.pos_iff_ne_zero.1 hn), hfill c0 hc0]
+      show some (List.replicate n c0) = some (asNestList x)
+      congr 1
+      symm
+      apply List.eq_replicate_iff.2
+      refine ⟨hlen, ?_⟩
+      intro b hb
+      have := (hfill b hb).symm.trans (hfill c0 hc0)
+      exact Option.some.inj this
+
+end Unc
 end Ft
